@@ -140,15 +140,16 @@ def main(argv):
         data = json.load(open(replay))
         return mod.replay(data) if hasattr(mod, "replay") else 2
 
-    # watchdog: a hang is tool trouble (exit 2), never a verdict
-    import signal
+    # watchdog: a run that exceeds its budget is tool trouble (exit 2), never a verdict.  (A single *request* that hangs is
+    # interrupted by pyg.request and judged by the property's oracle.)
+    import threading
 
-    def _timeout(signum, frame):
+    def _timeout():
         print(f"tool error: {pid} {tier} exceeded its time budget (watchdog)", flush=True)
-        traceback.print_stack(frame)
         os._exit(2)
-    signal.signal(signal.SIGALRM, _timeout)
-    signal.alarm(int(os.environ.get("VERIF_WATCHDOG", "1500" if tier == "quick" else "14400")))
+    wd = threading.Timer(int(os.environ.get("VERIF_WATCHDOG", "1500" if tier == "quick" else "14400")), _timeout)
+    wd.daemon = True
+    wd.start()
     ctx = Ctx(pid, tier, seed)
     # 1 extract ------------------------------------------------------------
     try:
